@@ -308,6 +308,10 @@ def make_pool(rng):
         if has_inf:
             item["float_inf"] = np.vstack([arr, [[float(arr[0, 0]), np.inf]]])
         pool["dgm"].append(item)
+    for _ in range(2):
+        # 8-bit data: values over most of the range of int8 / uint8 (sums and differences do not fit the dtype itself)
+        ia, fa, dn = vforms.near_limit_int_diagram(rng, int(rng.integers(3, 7)), dtypes=(np.int8, np.uint8))
+        pool["dgm"].append({"float": fa, "integer": True, "inf": False, "int": ia, "list": fa.astype(int).tolist(), "float32": fa.astype(np.float32)})
     for gi in range(4):
         G, _ = OM.random_connected(rng, 7, 2)
         if gi >= 2:      # irregular graphs on which the sampled upper bound really depends on the random draws
@@ -387,7 +391,10 @@ def run_case(ctx, k, rng):
             args = [_copy.deepcopy(a) if isinstance(a, (np.ndarray, list)) else a for a in args]
             ctx.note("calls with short-lived copies")
         vkey = (name, tuple(p[1] for p in picks))
-        if any(isinstance(a, np.ndarray) and a.dtype == np.float32 for a in args):
+        if any(isinstance(a, np.ndarray) and a.dtype == np.float32 for a in args) or (
+                name == "sliced_wasserstein" and any(isinstance(a, np.ndarray) and a.dtype.kind in "iu" and a.dtype.itemsize <= 2 for a in args)):
+            # (sliced_wasserstein multiplies by float32 direction vectors: 8- and 16-bit integer input is promoted to single precision
+            # there, 32- and 64-bit input to double - a 1e-7 effect that C15 judges against its oracle at 1e-6*scale)
             # mixed single/double arithmetic promotes differently for int arrays and python ints (1e-7 effects): calls that
             # involve a single-precision array are compared only with calls using exactly the same forms
             vkey = (name, tuple(p[2] for p in picks))
